@@ -133,7 +133,7 @@ template <>
 int64_t PluginArgParser::parseValue(const std::string& valueString) {
   return parseWhole<int64_t>(
       valueString, [](const std::string& s, size_t* pos) {
-        return static_cast<int64_t>(std::stoull(s, pos));
+        return static_cast<int64_t>(std::stoll(s, pos));
       });
 }
 
